@@ -1,6 +1,7 @@
 """C11 document-level correspondences: small generated documents rendered by the real pipeline,
 geometry extracted from the laid-out box tree and compared with the Lean model run on the same
 abstract input.  All lengths are dyadic so that float arithmetic is exact."""
+import contextlib
 from fractions import Fraction as F
 
 from harness import c11_mocks, docs
@@ -73,18 +74,24 @@ def gen_float_doc(rng, adversarial=False):
             else:
                 w = F(rng.randint(1, int(width)))
             h = q(rng, 1, 40) if rng.random() < 0.9 else F(1, 4)
-            doc['items'].append({'kind': 'float', 'side': rng.choice(SIDES), 'w': w, 'h': h, 'clear': clear(),
-                                 'mt': margin(), 'mr': margin(), 'mb': margin(), 'ml': margin()})
+            item = {'kind': 'float', 'side': rng.choice(SIDES), 'w': w, 'h': h, 'clear': clear(),
+                    'mt': margin(), 'mr': margin(), 'mb': margin(), 'ml': margin()}
+            if rng.random() < 0.4:
+                item['style'] = gen_float_style(rng, fs, item)
+            doc['items'].append(item)
         elif kind == 'para':
             max_chars = max(1, int(width // fs) + (2 if adversarial else 0))
             words = [rng.randint(1, max_chars) for _ in range(rng.randint(1, 5))]
             # floats met inside a line, after its word: widths around what is left of the line, so that
             # "fits on the line", "waits for the end of the line" and "waits behind a waiting float" all occur
             inline = []
+            align = rng.choice(['start', 'start', 'left', 'right', 'center', 'end'])
+            # floats inside lines only where the finished line is not shifted horizontally (ltr, start-aligned):
+            # known finding rtl-inline-float-displaced (the shift moves the floats of the line too)
+            with_floats = not doc['rtl'] and align in ('start', 'left')
             for n in words:
                 line_floats = []
-                # (ltr only: known finding rtl-inline-float-displaced)
-                if not doc['rtl'] and rng.random() < 0.45:
+                if with_floats and rng.random() < 0.45:
                     left_over = max(F(1), width - n * fs)
                     for _f in range(rng.choice([1, 1, 2, 2, 3])):
                         r = rng.random()
@@ -95,7 +102,14 @@ def gen_float_doc(rng, adversarial=False):
                                             'mt': abs(margin()), 'mr': abs(margin()), 'mb': abs(margin()),
                                             'ml': abs(margin())})
                 inline.append(line_floats)
+            # some lines hold an inline-block taller than the strut instead of a word: the line box is first
+            # tried with the strut height, then with its real height (second half of get_next_linebox)
+            for k in range(len(words)):
+                if not inline[k] and rng.random() < 0.2:
+                    words[k] = ['ib', F(rng.randint(1, int(width) + (8 if adversarial else 0))),
+                                F(fs) + q(rng, 0, 40)]
             doc['items'].append({'kind': 'para', 'clear': clear(), 'words': words, 'inline': inline,
+                                 'align': align,
                                  'mt': vmargin(), 'mb': vmargin()})
         elif kind == 'bfc':
             w = 'auto' if rng.random() < 0.3 else F(rng.randint(1, int(width * 4)), 4)
@@ -115,6 +129,66 @@ def gen_float_doc(rng, adversarial=False):
             doc['items'].append({'kind': 'block', 'clear': clear(), 'h': h,
                                  'mt': vmargin() if h > 0 else F(0), 'mb': vmargin() if h > 0 else F(0)})
     return doc
+
+
+def gen_float_style(rng, fs, item):
+    """The beginning of float_layout: auto / % widths and margins, paddings, borders, min/max-width, content."""
+    content = gen_content(rng, fs)
+    if '<div' in content['html'] and content['hwide'] == 0:
+        content = {'html': '<div style="width:5px;height:3px"></div>', 'minc': F(5), 'maxc': F(5),
+                   'hwide': F(3), 'hnarrow': F(3)}
+
+    def mdim(v):
+        r = rng.random()
+        return 'auto' if r < 0.25 else ['pct', rng.choice(PCTS_SMALL)] if r < 0.4 else ['px', v]
+
+    def pdim():
+        r = rng.random()
+        return ['px', F(0)] if r < 0.6 else ['pct', rng.choice(PCTS_SMALL)] if r < 0.7 else ['px', q(rng, 0, 8)]
+    r = rng.random()
+    width = 'auto' if r < 0.5 else ['pct', rng.choice(PCTS)] if r < 0.65 else ['px', item['w']]
+    return {
+        'width': width, 'height': 'auto' if rng.random() < 0.6 else item['h'],
+        'ml': mdim(item['ml']), 'mr': mdim(item['mr']), 'mt': mdim(item['mt']), 'mb': mdim(item['mb']),
+        'pl': pdim(), 'pr': pdim(), 'pt': pdim(), 'pb': pdim(),
+        'bl': F(rng.choice([0, 0, 1, 2])), 'br': F(rng.choice([0, 0, 1, 2])),
+        'bt': F(rng.choice([0, 0, 1, 2])), 'bb': F(rng.choice([0, 0, 1, 2])),
+        'minw': gen_dim(rng, 0, 80) if rng.random() < 0.25 else 'auto',
+        'maxw': gen_dim(rng, 0, 120) if rng.random() < 0.25 else 'auto',
+        'content': content,
+    }
+
+
+def float_spec(it):
+    """(side clear width height ml mr mt mb pl pr pt pb bl br bt bb minW maxW minC maxC hWide hNarrow)"""
+    st = it.get('style')
+    if st is None:
+        z = ['px', F(0)]
+        return [it['side'], it['clear'], ['px', it['w']], it['h'], ['px', it['ml']], ['px', it['mr']],
+                ['px', it['mt']], ['px', it['mb']], z, z, z, z, 0, 0, 0, 0, 'auto', 'auto', 0, 0, 0, 0]
+    c = st['content']
+    return [it['side'], it['clear'], dim_wire(st['width']), st['height']] + [
+        dim_wire(st[k]) for k in ('ml', 'mr', 'mt', 'mb', 'pl', 'pr', 'pt', 'pb')] + [
+        st['bl'], st['br'], st['bt'], st['bb'], dim_wire(st['minw']), dim_wire(st['maxw']),
+        c['minc'], c['maxc'], c['hwide'], c['hnarrow']]
+
+
+def float_css(it):
+    st = it.get('style')
+    if st is None:
+        return (f'float:{it["side"]};width:{px(it["w"])};height:{px(it["h"])};'
+                f'margin:{px(it["mt"])} {px(it["mr"])} {px(it["mb"])} {px(it["ml"])};clear:{it["clear"]}'), ''
+    css = [f'float:{it["side"]}', f'clear:{it["clear"]}', f'width:{css_dim(st["width"])}',
+           f'height:{"auto" if st["height"] == "auto" else px(st["height"])}',
+           'margin:' + ' '.join(css_dim(st[k]) for k in ('mt', 'mr', 'mb', 'ml')),
+           'padding:' + ' '.join(css_dim(st[k]) for k in ('pt', 'pr', 'pb', 'pl')),
+           'border-style:solid',
+           f'border-width:{px(st["bt"])} {px(st["br"])} {px(st["bb"])} {px(st["bl"])}']
+    if st['minw'] != 'auto':
+        css.append(f'min-width:{css_dim(st["minw"])}')
+    if st['maxw'] != 'auto':
+        css.append(f'max-width:{css_dim(st["maxw"])}')
+    return ';'.join(css), st['content']['html']
 
 
 SVG = "data:image/svg+xml,%3Csvg xmlns='http://www.w3.org/2000/svg' width='4' height='4'/%3E"
@@ -139,9 +213,8 @@ def float_doc_html(doc):
     ]
     for i, it in enumerate(doc['items']):
         if it['kind'] == 'float':
-            parts.append(
-                f'<div id="i{i}" style="float:{it["side"]};width:{px(it["w"])};height:{px(it["h"])};'
-                f'margin:{px(it["mt"])} {px(it["mr"])} {px(it["mb"])} {px(it["ml"])};clear:{it["clear"]}"></div>')
+            css, inner = float_css(it)
+            parts.append(f'<div id="i{i}" style="{css}">{inner}</div>')
         elif it['kind'] == 'para':
             # forced breaks (white-space: pre-line): one word per line box, its floats right after the word
             chunks = []
@@ -150,9 +223,13 @@ def float_doc_html(doc):
                     f'<span id="i{i}l{k}f{m}" style="float:{f["side"]};width:{px(f["w"])};height:{px(f["h"])};'
                     f'margin:{px(f["mt"])} {px(f["mr"])} {px(f["mb"])} {px(f["ml"])};clear:{f["clear"]}"></span>'
                     for m, f in enumerate(it['inline'][k]))
-                chunks.append(word(n) + spans)
+                if isinstance(n, list):
+                    chunks.append(f'<span style="display:inline-block;vertical-align:top;width:{px(n[1])};'
+                                  f'height:{px(n[2])}"></span>')
+                else:
+                    chunks.append(word(n) + spans)
             text = '\n'.join(chunks)
-            parts.append(f'<p id="i{i}" style="white-space:pre-line;clear:{it["clear"]};'
+            parts.append(f'<p id="i{i}" style="white-space:pre-line;text-align:{it["align"]};clear:{it["clear"]};'
                          f'margin:{px(it["mt"])} 0 {px(it["mb"])}">{text}</p>')
         elif it['kind'] == 'bfc':
             width = 'auto' if it['w'] == 'auto' else px(it['w'])
@@ -180,12 +257,14 @@ def float_doc_wire(doc):
     items = []
     for it in doc['items']:
         if it['kind'] == 'float':
-            items.append(['float', [0, 0, it['mt'], it['mb'], it['ml'], it['mr'], it['w'], it['h'], it['side'],
-                                    it['clear'], 'bfc']])
+            items.append(['floatspec', float_spec(it)])
         elif it['kind'] == 'para':
-            lines = [[n * doc['fs'], [[0, 0, f['mt'], f['mb'], f['ml'], f['mr'], f['w'], f['h'], f['side'], f['clear'],
-                                        'bfc'] for f in fl]] for n, fl in zip(it['words'], it['inline'])]
-            items.append(['para', it['clear'], doc['fs'], lines, it['mt'], it['mb']])
+            lines = []
+            for n, fl in zip(it['words'], it['inline']):
+                size = [0, n[1], n[2]] if isinstance(n, list) else [n * doc['fs'], n * doc['fs'], doc['fs']]
+                lines.append(size + [[[0, 0, f['mt'], f['mb'], f['ml'], f['mr'], f['w'], f['h'], f['side'],
+                                       f['clear'], 'bfc'] for f in fl]])
+            items.append(['para', it['clear'], doc['fs'], it['align'], lines, it['mt'], it['mb']])
         elif it['kind'] == 'bfc':
             items.append(['bfc', it['clear'], it['w'], it['h'], it['ml'], it['mr'], it['mt'], it['mb']])
         elif it['kind'] in ('img', 'table'):
@@ -241,9 +320,10 @@ def observe_float_doc(doc):
                 n_inline = len(it['inline'][k]) if k < len(it['inline']) else 0
                 if n_inline:
                     # a line holding floats: its box also spans the floats placed on it; only its top is compared
-                    text += ' (- ' + sx.atom(fr(ln.position_y)) + ' -'
+                    text += ' (- ' + sx.atom(fr(ln.position_y)) + ' - -'
                 else:
-                    text += ' (' + ' '.join(sx.atom(fr(v)) for v in (ln.position_x, ln.position_y, ln.width))
+                    text += ' (' + ' '.join(sx.atom(fr(v)) for v in (
+                        ln.position_x, ln.position_y, ln.width, ln.height))
                 for m in range(n_inline):
                     fl = [b for b in by_id.get(f'i{i}l{k}f{m}', []) if isinstance(b, boxes.BlockBox)]
                     text += (' (F ' + ' '.join(sx.atom(fr(v)) for v in (
@@ -389,7 +469,16 @@ def gen_abs_doc(rng):
         size_w, size_h = size_w - 60, size_h - 50
     fixed = rng.random() < 0.2
     target, content = gen_abs_style(rng, fixed), gen_content(rng, fs)
-    if '<div' not in content['html']:
+    replaced = rng.random() < 0.25
+    if replaced:
+        # an absolutely positioned image with specified sizes: absolute_replaced
+        content = {'html': None, 'minc': F(0), 'maxc': F(0), 'hwide': F(0), 'hnarrow': F(0)}
+        for k, hi in (('width', 120), ('height', 80)):
+            if target[k] == 'auto':
+                target[k] = ['px', q(rng, 0, hi)]
+        for k in ('minw', 'maxw', 'minh', 'maxh'):
+            target[k] = 'auto'
+    elif '<div' not in content['html']:
         # text must not overflow its box: a line box that ends below the page bottom goes through the
         # page-overflow code of _linebox_layout (pagination, not placement)
         if target['height'] != 'auto':
@@ -459,7 +548,10 @@ def abs_doc_html(doc):
     for h in doc['before']:
         out.append(f'<div style="height:{px(h)}"></div>')
     position = 'fixed' if doc['fixed'] else 'absolute'
-    out.append(f'<div id="t" style="{abs_style_css(doc["target"], position)}">{doc["content"]["html"]}</div>')
+    if doc['content']['html'] is None:
+        out.append(f'<img id="t" src="{SVG}" style="{abs_style_css(doc["target"], position)}">')
+    else:
+        out.append(f'<div id="t" style="{abs_style_css(doc["target"], position)}">{doc["content"]["html"]}</div>')
     out.extend(reversed(closing))
     for _ in range(doc['pages'] - 1):
         out.append('<div style="break-before:page;height:10px"></div>')
@@ -489,13 +581,49 @@ def rect_of(box):
         box.margin_left, box.margin_right, box.margin_top, box.margin_bottom))
 
 
+@contextlib.contextmanager
+def logged_owners():
+    """{element id: [id of the containing block ('page' for a PageBox) of every absolute_box_layout call]}"""
+    import weasyprint.layout as layout_mod
+    from weasyprint.layout import absolute, page
+    real = absolute.absolute_box_layout
+    owners = {}
+
+    def wrapper(context, box, containing_block, *args, **kwargs):
+        element = getattr(box, 'element', None)
+        key = element.get('id') if element is not None else None
+        if key:
+            cb_element = getattr(containing_block, 'element', None)
+            is_page = type(containing_block).__name__ == 'PageBox'
+            owners.setdefault(key, []).append(
+                'page' if is_page else (cb_element.get('id') if cb_element is not None else None) or '?')
+        return real(context, box, containing_block, *args, **kwargs)
+    absolute.absolute_box_layout = page.absolute_box_layout = layout_mod.absolute_box_layout = wrapper
+    try:
+        yield owners
+    finally:
+        absolute.absolute_box_layout = page.absolute_box_layout = layout_mod.absolute_box_layout = real
+
+
 def abs_doc_cases(doc):
     """Render; -> list of (protocol line, implementation output, tags, description)."""
     from weasyprint.formatting_structure import boxes
-    document = docs.render(abs_doc_html(doc))
+    with logged_owners() as owners:
+        document = docs.render(abs_doc_html(doc))
     by_id = boxes_by_id(document)
     cases = []
     ancestors = doc['ancestors']
+    # which box the implementation handed to absolute_box_layout as containing block, against the model of the
+    # list plumbing (Model/Positioned.lean)
+    chain = [a['pos'] for a in ancestors]
+    for level in range(len(ancestors) + 1):
+        key = f'a{level}' if level < len(ancestors) else 't'
+        pos = (ancestors[level]['pos'] if level < len(ancestors) else 'fixed' if doc['fixed'] else 'absolute')
+        if pos in ('absolute', 'fixed'):
+            seen = owners.get(key)
+            cases.append((sx.line('cbowner', pos, chain[:level]),
+                          'never-laid-out' if not seen else seen[0][1:] if seen[0].startswith('a') else seen[0],
+                          ['owner-' + pos], key))
 
     def the_box(key, page=0):
         found = [b for b in by_id.get(key, []) if b._page == page and not isinstance(b, (boxes.LineBox, boxes.TextBox))]
@@ -530,12 +658,16 @@ def abs_doc_cases(doc):
             sx0, sy0 = fr(parent.content_box_x()), fr(parent.content_box_y())
             ltr = not ancestors[level - 1]['rtl']
         sy0 += sum(before, F(0))
-        line = sx.line('absblock', style_wire(style), cb_wire(cb_box, j is None), ltr, sx0, sy0,
-                       content['minc'], content['maxc'], content['hwide'], content['hnarrow'])
+        if content.get('html', '') is None:
+            line = sx.line('absrepldoc', style_wire(style), cb_wire(cb_box, j is None), ltr, sx0, sy0)
+        else:
+            line = sx.line('absblock', style_wire(style), cb_wire(cb_box, j is None), ltr, sx0, sy0,
+                           content['minc'], content['maxc'], content['hwide'], content['hnarrow'])
         pattern = ''.join('a' if style[k] == 'auto' else 'v' for k in ('left', 'right', 'width', 'ml', 'mr'))
         pattern_v = ''.join('a' if style[k] == 'auto' else 'v' for k in ('top', 'bottom', 'height', 'mt', 'mb'))
         tags = ['h-' + pattern, 'v-' + pattern_v, 'ltr' if ltr else 'rtl',
-                'cb-page' if j is None else 'cb-' + ancestors[j]['pos'], 'fixed' if fixed else 'absolute']
+                'cb-page' if j is None else 'cb-' + ancestors[j]['pos'], 'fixed' if fixed else 'absolute',
+                'replaced' if content.get('html', '') is None else 'block']
         return (line, rect_of(box), tags, key)
 
     empty = {'minc': F(0), 'maxc': F(0), 'hwide': F(0), 'hnarrow': F(0)}
@@ -592,6 +724,276 @@ def sec_abs_docs(run):
             if line is None:
                 line = sx.line('cbrect', [True] + [0] * 12)
             sec.add(line, out, meta={'kind': 'abs-doc', 'doc': doc, 'key': key, 'signature': None}, tags=tags)
+
+
+# ---------------------------------------------------------------------------------------------
+# fixed boxes on every page
+
+def gen_fixed_doc(rng):
+    """2..4 pages; on each, 0..2 fixed boxes (px offsets) under 0..2 static / relative / absolute ancestors."""
+    pages = []
+    next_id = 1
+    for _ in range(rng.randint(2, 4)):
+        boxes_ = []
+        for _b in range(rng.choice([0, 1, 1, 2])):
+            chain = [rng.choice(['static', 'relative', 'absolute']) for _c in range(rng.choice([0, 0, 1, 2]))]
+            boxes_.append({'id': next_id, 'left': q(rng, 0, 100), 'top': q(rng, 0, 100), 'chain': chain})
+            next_id += 1
+        pages.append(boxes_)
+    return {'pages': pages}
+
+
+def late_rule(chain):
+    """Model/Positioned.collectedLate, restated: the outermost positioned ancestor is absolutely positioned."""
+    positioned = [c for c in chain if c != 'static']
+    return bool(positioned) and positioned[0] == 'absolute'
+
+
+def fixed_doc_html(doc):
+    out = ['<style>@page{size:300px 300px;margin:%dpx}html,body{margin:0;padding:0}</style>' % PAGE_MARGIN]
+    for n, page in enumerate(doc['pages']):
+        out.append(f'<div style="{"break-before:page;" if n else ""}height:20px"></div>')
+        for b in page:
+            opening = ''.join(
+                f'<div style="position:{c};width:150px;height:30px;{"left:7px;top:3px" if c != "static" else ""}">'
+                for c in b['chain'])
+            out.append(f'{opening}<div id="f{b["id"]}" style="position:fixed;left:{px(b["left"])};'
+                       f'top:{px(b["top"])};width:10px;height:10px"></div>' + '</div>' * len(b['chain']))
+        out.append('<div style="height:20px"></div>')
+    return ''.join(out)
+
+
+def observe_fixed_doc(doc):
+    document = docs.render(fixed_doc_html(doc))
+    pages = []
+    for page in document.pages:
+        found = []
+        for box, _parent in walk(page._page_box):
+            element = getattr(box, 'element', None)
+            key = element.get('id') if element is not None else None
+            if key and key.startswith('f') and type(box).__name__ == 'BlockBox':
+                found.append(f'({key[1:]} {sx.atom(fr(box.position_x))} {sx.atom(fr(box.position_y))})')
+        pages.append('(' + ' '.join(found) + ')')
+    return ' '.join(pages), len(document.pages)
+
+
+def sec_fixed_docs(run):
+    rng = run.rng
+    sec = run.section(
+        'fixed-pages', 'rendered documents of 2..4 pages with fixed boxes declared on any page under static / relative / '
+        'absolute ancestors; compared: for every page, the fixed boxes present in tree order and their positions, '
+        'against the model of page.fixed_boxes / layout_fixed_boxes; and, for every fixed box, whether it is collected '
+        'too late to be repeated; non-trivial = at least one fixed box')
+    for _ in range(run.n(80, 800)):
+        doc = gen_fixed_doc(rng)
+        wire_pages = [[[b['id'], b['left'], b['top'], late_rule(b['chain'])] for b in page] for page in doc['pages']]
+        out = guarded(lambda: observe_fixed_doc(doc))
+        text, n_pages = out if not isinstance(out, str) else (out, None)
+        n_fixed = sum(len(p) for p in doc['pages'])
+        sec.add(sx.line('fixedpages', PAGE_MARGIN, PAGE_MARGIN, wire_pages), text,
+                meta={'kind': 'fixed-doc', 'doc': doc, 'signature': None}, nontrivial=n_fixed > 0,
+                tags=[f'pages{len(doc["pages"])}', f'fixed{min(n_fixed, 5)}'] +
+                     (['late'] if any(late_rule(b['chain']) for p in doc['pages'] for b in p) else []))
+        if isinstance(out, str):
+            continue
+        # the late rule against what the implementation did: a box missing from another page was collected late
+        observed = sx.loads_line(text)
+        for n, page in enumerate(doc['pages']):
+            for b in page:
+                elsewhere = [m for m in range(len(observed)) if m != n]
+                missing = any(str(b['id']) not in [e[0] for e in observed[m]] for m in elsewhere)
+                sec.add(sx.line('late', b['chain']), 'true' if missing else 'false',
+                        meta={'kind': 'fixed-late', 'doc': doc, 'box': b['id'], 'signature': None},
+                        tags=['late-rule', 'chain' + str(len(b['chain']))])
+
+
+def fixed_doc_violation(doc, text):
+    """A fixed box is laid out identically on every page — except the known finding
+    fixed-in-absolute-not-repeated (outermost positioned ancestor absolutely positioned)."""
+    if text.startswith('err:'):
+        return f'rendering raised {text}'
+    observed = sx.loads_line(text)
+    if len(observed) != len(doc['pages']):
+        return f'{len(observed)} pages rendered for {len(doc["pages"])} pages of content'
+    for n, page in enumerate(doc['pages']):
+        for b in page:
+            want = [str(b['id']), sx.atom(F(PAGE_MARGIN) + b['left']), sx.atom(F(PAGE_MARGIN) + b['top'])]
+            for m, got in enumerate(observed):
+                here = [e for e in got if e[0] == str(b['id'])]
+                if m != n and late_rule(b['chain']):
+                    continue
+                if len(here) != 1:
+                    return f'fixed box f{b["id"]} (declared on page {n + 1}) appears {len(here)} times on page {m + 1}'
+                if here[0] != want:
+                    return (f'fixed box f{b["id"]} is at {here[0][1:]} on page {m + 1}, expected page area + '
+                            f'(left, top) = {want[1:]}')
+    return None
+
+
+# ---------------------------------------------------------------------------------------------
+# wide documents checked by the verified trace checker (Model/FloatCheck.lean)
+
+WORDS = ['a', 'bb', 'ccc', 'dddd', 'eeeee', 'ffffff']
+
+
+def gen_wide_content(rng, depth, fs, width):
+    """Nested blocks, floats at any level (with their own content), multi-word paragraphs, BFC roots, tables and
+    images; every box has area (zero-height floats are the known finding zero-height-float-at-page-origin)."""
+    out = []
+    for _ in range(rng.randint(2, 6 if depth else 9)):
+        r = rng.random()
+        clear = f'clear:{rng.choice(CLEARS)};' if rng.random() < 0.25 else ''
+        if r < 0.35:
+            side = rng.choice(SIDES)
+            kind = rng.random()
+            margins = f'margin:{rng.choice([0, 0, 2, 5])}px {rng.choice([0, 0, 3, 8])}px;'
+            if kind < 0.5 or depth == 0:
+                w = px(F(rng.randint(4, max(5, int(width * 3))), 4))
+                out.append(f'<div style="float:{side};{clear}{margins}width:{w};height:{px(q(rng, 1, 40))}"></div>')
+            elif kind < 0.75:
+                words = ' '.join(rng.choice(WORDS) for _w in range(rng.randint(1, 6)))
+                wcss = rng.choice(['', f'width:{rng.choice([25, 50, 75])}%;', f'width:{px(q(rng, 10, 60))};'])
+                out.append(f'<div style="float:{side};{clear}{margins}{wcss}padding:{rng.choice([0, 0, 2])}px">{words}</div>')
+            else:
+                inner_w = F(rng.randint(20, max(21, int(width * 0.7))))
+                inner = gen_wide_content(rng, depth - 1, fs, inner_w)
+                out.append(f'<div style="float:{side};{clear}{margins}width:{px(inner_w)}">{inner}</div>')
+        elif r < 0.65:
+            words = ' '.join(rng.choice(WORDS) for _w in range(rng.randint(1, 25)))
+            out.append(f'<p style="{clear}margin:{rng.choice([0, 0, 4, 10])}px 0">{words}</p>')
+        elif r < 0.75 and depth:
+            pad = rng.choice([0, 0, 3, 6])
+            inner = gen_wide_content(rng, depth - 1, fs, width - 2 * pad - 10)
+            out.append(f'<div style="{clear}padding:{pad}px;margin:{rng.choice([0, 0, 5])}px {rng.choice([0, 5])}px;'
+                       f'border:{rng.choice([0, 1])}px solid">{inner}</div>')
+        elif r < 0.85:
+            wcss = rng.choice(['', f'width:{px(F(rng.randint(8, max(9, int(width * 4))), 4))};'])
+            inner = (gen_wide_content(rng, depth - 1, fs, width * F(3, 4)) if depth and rng.random() < 0.4
+                     else ' '.join(rng.choice(WORDS) for _w in range(rng.randint(1, 8))))
+            out.append(f'<div style="overflow:hidden;{clear}{wcss}margin:0 {rng.choice([0, 4])}px">{inner}</div>')
+        elif r < 0.93:
+            out.append(f'<img src="{SVG}" style="display:block;{clear}width:{px(F(rng.randint(4, max(5, int(width * 4))), 4))};'
+                       f'height:{px(q(rng, 1, 25))}">')
+        else:
+            out.append(f'<table style="{clear}width:{px(F(rng.randint(8, max(9, int(width * 4))), 4))};border-spacing:0">'
+                       f'<tr><td style="padding:0">{rng.choice(WORDS)}</td></tr></table>')
+    return ''.join(out)
+
+
+def gen_wide_doc(rng):
+    fs = rng.choice([8, 10, 12])
+    width = F(rng.choice([100, 150, 200, 300]))
+    return {'fs': fs, 'rtl': rng.random() < 0.3, 'w': width,
+            'body': gen_wide_content(rng, rng.choice([1, 2, 2]), fs, width)}
+
+
+def wide_doc_html(doc):
+    return ('<style>@page{size:700px 9000px;margin:%dpx}html,body{margin:0;padding:0}'
+            'body{font-family:weasyprint;font-size:%dpx;line-height:%dpx}p{margin:0}</style>'
+            '<div style="width:%s;direction:%s">%s</div>' % (
+                PAGE_MARGIN, doc['fs'], doc['fs'], px(doc['w']), 'rtl' if doc['rtl'] else 'ltr', doc['body']))
+
+
+def wide_doc_events(doc):
+    """Render; -> one event list per block formatting context, in tree order (the wire of `checkbfc`)."""
+    from weasyprint.formatting_structure import boxes
+    document = docs.render(wide_doc_html(doc))
+    contexts = []
+
+    def visit(box, parent, events):
+        """`events`: the list of the formatting context `box` takes part in."""
+        floated = isinstance(box, boxes.Box) and box.is_floated()
+        if floated:
+            if box.border_height() != 0:
+                events.append(['F', fr(box.position_x), fr(box.position_y), fr(box.margin_width()),
+                               fr(box.margin_height()), box.style['float']])
+        elif parent is not None and isinstance(parent, boxes.BlockContainerBox):
+            l0, r0 = fr(parent.content_box_x()), fr(parent.content_box_x()) + fr(parent.width)
+            if isinstance(box, boxes.LineBox):
+                if box.width > 0 and box.height > 0:
+                    events.append(['B', l0, r0, fr(box.position_x), fr(box.position_y), fr(box.width), fr(box.height)])
+            elif (isinstance(box, boxes.BlockReplacedBox) or getattr(box, 'is_table_wrapper', False) or
+                  (isinstance(box, boxes.BlockBox) and box.establishes_formatting_context())):
+                if box.border_height() > 0 and box.border_width() > 0:
+                    events.append(['B', l0 + fr(box.margin_left), r0 - fr(box.margin_right), fr(box.border_box_x()),
+                                   fr(box.border_box_y()), fr(box.border_width()), fr(box.border_height())])
+        own = events
+        if floated or (isinstance(box, boxes.Box) and not isinstance(box, (boxes.LineBox, boxes.InlineBox, boxes.TextBox))
+                       and box.establishes_formatting_context()) or isinstance(box, (boxes.PageBox, boxes.TableCellBox)):
+            own = []
+            contexts.append(own)
+        if isinstance(box, boxes.LineBox):
+            return          # nothing inside a line takes part (no floats are generated inside lines)
+        for child in getattr(box, 'children', ()):
+            child = child.__dict__.get('_box', child) if type(child).__name__ == 'AbsolutePlaceholder' else child
+            visit(child, box, own)
+    for page in document.pages:
+        visit(page._page_box, None, [])
+    return [c for c in contexts if c], len(document.pages)
+
+
+def describe_event(ev):
+    if ev[0] == 'F':
+        return f'float {ev[5]} margin box (x={ev[1]}, y={ev[2]}, w={ev[3]}, h={ev[4]})'
+    return f'box (x={ev[3]}, y={ev[4]}, w={ev[5]}, h={ev[6]}) between {ev[1]} and {ev[2]}'
+
+
+def python_check_events(events):
+    """The clauses of Model/FloatCheck.checkEvents restated (judge / search oracle): index and reason of the
+    first failing event."""
+    floats = []
+    for i, ev in enumerate(events):
+        if ev[0] == 'F':
+            rect = tuple(ev[1:5])
+            for other in floats:
+                if overlap(rect, other[:4]):
+                    return i, f'{describe_event(ev)} overlaps the earlier float at {other[:4]}'
+                if rect[1] < other[1]:
+                    return i, f'{describe_event(ev)} is higher than the earlier float at {other[:4]}'
+            floats.append(rect + (ev[5],))
+        else:
+            _k, l0, r0, x, y, w, h = ev
+            if w <= r0 - l0:
+                for f in floats:
+                    if overlap((x, y, w, h), f[:4]):
+                        return i, (f'{describe_event(ev)} is not wider than its containing room but overlaps the '
+                                   f'float at {f[:4]} instead of being moved below it')
+    return None
+
+
+def wide_doc_violation(doc):
+    out = guarded(lambda: wide_doc_events(doc))
+    if isinstance(out, str):
+        return f'rendering raised {out}'
+    for events in out[0]:
+        bad = python_check_events(events)
+        if bad:
+            return bad[1]
+    return None
+
+
+def sec_wide_docs(run):
+    rng = run.rng
+    sec = run.section(
+        'wide-trace', 'rendered wide documents (nested blocks, floats at any depth with text / nested content / '
+        'percentage widths, multi-word paragraphs wrapped by the real line breaker, BFC roots, images, tables, '
+        'clear, ltr and rtl) checked by the verified trace checker checkEvents: per block formatting context, floats '
+        'pairwise disjoint with tops in order, every line box / BFC root / image / table that fits the room beside the '
+        'earlier floats overlaps none of them; expected verdict "ok"; non-trivial = a context with >= 2 floats')
+    for _ in range(run.n(60, 600)):
+        doc = gen_wide_doc(rng)
+        out = guarded(lambda: wide_doc_events(doc))
+        if isinstance(out, str):
+            sec.add(sx.line('checkbfc', []), out, meta={'kind': 'wide-doc', 'doc': doc, 'signature': None},
+                    tags=['render-error'])
+            continue
+        contexts, n_pages = out
+        for events in contexts:
+            n_floats = sum(1 for e in events if e[0] == 'F')
+            sec.add(sx.line('checkbfc', events), 'ok', meta={'kind': 'wide-doc', 'doc': doc, 'signature': None},
+                    nontrivial=n_floats >= 2,
+                    tags=[f'floats{min(n_floats, 8)}', f'boxes{min(8, (len(events) - n_floats) // 4 * 4)}',
+                          'rtl' if doc['rtl'] else 'ltr'])
 
 
 # ---------------------------------------------------------------------------------------------
@@ -720,22 +1122,39 @@ def float_doc_violation(doc, impl):
                         return f'paragraph #{i}: first line at {y}, above its position {expected}'
                 elif y < y_prev:
                     return f'paragraph #{i}: line at {y} above the previous bottom {y_prev}'
-                line_floats = ln[3:]
+                line_floats = ln[4:]
+                lh = F(fs)
                 if not line_floats:
-                    x, w = F(ln[0]), F(ln[2])
-                    if w != n * fs:
-                        return f'paragraph #{i}: line width {w} for {n} glyphs of {fs}px'
-                    beside = [f for f in floats if f[0][1] < y + fs and y < f[0][1] + f[0][3]]
+                    x, w, lh = F(ln[0]), F(ln[2]), F(ln[3])
+                    want = (n[1], n[2]) if isinstance(n, list) else (n * fs, F(fs))
+                    if (w, lh) != want:
+                        return f'paragraph #{i}: line box {w}x{lh}, content is {want[0]}x{want[1]}'
+                    beside = [f for f in floats if f[0][1] < y + lh and y < f[0][1] + f[0][3]]
                     left = max([cx] + [f[0][0] + f[0][2] for f in beside if f[1] == 'left'])
                     right = min([cx + width] + [f[0][0] for f in beside if f[1] == 'right'])
-                    if w <= right - left:
+                    # known finding tall-line-aligned-in-strut-band: the width that text-align distributes is
+                    # measured on a band as high as the strut only; a taller line that is shifted (alignment
+                    # other than start, or rtl) can end over a float that begins below the strut band
+                    shifted = lh > fs and (doc['rtl'] or it['align'] not in ('start', 'left'))
+                    # a line that is not wider than its container is moved below the floats it does not fit beside
+                    if w <= (right - left if ghosts else width) and not shifted:
                         for other, side, j in floats:
-                            if overlap((x, y, w, F(fs)), other):
-                                return f'line of paragraph #{i} {(x, y, w, fs)} overlaps float {j} {other}'
+                            if overlap((x, y, w, lh), other):
+                                return f'line of paragraph #{i} {(x, y, w, lh)} overlaps float {j} {other}'
                 same_line = []
+                if line_floats:
+                    beside = [f for f in floats if f[0][1] < y + lh and y < f[0][1] + f[0][3]]
+                    room = (min([cx + width] + [f[0][0] for f in beside if f[1] == 'right']) -
+                            max([cx] + [f[0][0] + f[0][2] for f in beside if f[1] == 'left']) - n * fs)
                 for m, (fl, spec) in enumerate(zip(line_floats, it['inline'][k])):
                     rect = tuple(F(v) for v in fl[1:5])
                     label = f'#{i}/line{k}/{m}'
+                    if rect[1] == y and not ghosts:
+                        # kept on its line: it must fit in what the line's content and the floats kept before it leave
+                        if spec['w'] > room:
+                            return (f'float {label} ({spec["w"]} wide) is kept on its line although only {room} is '
+                                    f'left beside the line\'s content: it covers the text instead of going below the line')
+                        room -= rect[2]
                     if rect[1] == y:
                         # kept on its line.  Known finding inline-float-snapped-to-line-top: such a float is moved
                         # to the line's top whatever find_float_position decided, so its position is only held
@@ -754,7 +1173,7 @@ def float_doc_violation(doc, impl):
                             return what
                     floats.append((rect, spec['side'], label))
                     same_line.append((rect, spec['side'], label))
-                y_prev = y + fs
+                y_prev = y + lh
             flow_y, adj, loose = y_prev, [it['mb']], False
         elif kind in ('bfc', 'img', 'table'):
             x, y, w, h = (F(v) for v in p[1:5])
@@ -766,10 +1185,11 @@ def float_doc_violation(doc, impl):
             beside = [f for f in floats if f[0][1] < y + h and y < f[0][1] + f[0][3]]
             left = max([cx + it['ml']] + [f[0][0] + f[0][2] for f in beside if f[1] == 'left'])
             right = min([cx + width - it['mr']] + [f[0][0] for f in beside if f[1] == 'right'])
-            if h > 0 and w <= right - left:
+            if h > 0 and w <= (right - left if ghosts else width - it['ml'] - it['mr']):
                 for other, side, j in floats:
                     if overlap((x, y, w, h), other):
-                        return f'box #{i} {(x, y, w, h)} overlaps float {j} {other}'
+                        return (f'box #{i} {(x, y, w, h)} overlaps float {j} {other} instead of being narrowed or moved '
+                                f'below it')
             if h > 0 or kind != 'bfc':
                 flow_y, adj, loose = y + h, [it.get('mb', F(0))], False
             else:
@@ -833,7 +1253,15 @@ def abs_doc_violation(line, impl):
         if (F(got[0]), F(got[1])) != want:
             return f'relatively positioned box at {(got[0], got[1])}, expected static position + offset = {want}'
         return None
-    if args[0] != 'absblock':
+    if args[0] == 'cbowner':
+        chain = args[2]
+        positioned = [k for k, c in enumerate(chain) if c != 'static']
+        nearest = 'page' if args[1] == 'fixed' or not positioned else str(positioned[-1])
+        if impl != nearest:
+            return (f'positioned box laid out against {impl!r}, but its nearest positioned ancestor '
+                    f'(else the page area) is {nearest!r} (ancestors {chain})')
+        return None
+    if args[0] not in ('absblock', 'absrepldoc'):
         return None
     st, cb, ltr = args[1], args[2], args[3] == 'true'
     sx0, sy0 = F(args[4]), F(args[5])
@@ -886,6 +1314,10 @@ def judge(meta, impl, line=None):
         return float_doc_violation(meta['doc'], impl)
     if meta.get('kind') == 'abs-doc' and line:
         return abs_doc_violation(line, impl)
+    if meta.get('kind') == 'fixed-doc':
+        return fixed_doc_violation(meta['doc'], impl)
+    if meta.get('kind') == 'wide-doc':
+        return wide_doc_violation(meta['doc'])
     return None
 
 
@@ -949,7 +1381,42 @@ def finding_inline_float_snapped():
     return box is None or box.position_y < 20 + 30
 
 
+def finding_tall_line():
+    """A right-aligned line holding a 30x12 inline-block (strut 8) next to a right float that starts 9px
+    below the line's top must not overlap that float."""
+    html = ('<div style="width:100px;font-size:8px;line-height:8px"><div style="float:left;width:10px;height:9px"></div>'
+            '<div id="b" style="float:right;clear:left;width:60px;height:30px"></div><p id="p" style="margin:0;'
+            'text-align:right"><span style="display:inline-block;vertical-align:top;width:30px;height:12px"></span></p>'
+            '</div>')
+    by_id = boxes_by_id(docs.render(BASE + html))
+    para = [b for b in by_id.get('p', []) if type(b).__name__ == 'BlockBox']
+    flt = [b for b in by_id.get('b', []) if type(b).__name__ == 'BlockBox']
+    if not para or not flt or not para[0].children:
+        return True
+    line, b = para[0].children[0], flt[0]
+    return overlap((line.position_x, line.position_y, line.width, line.height),
+                   (b.position_x, b.position_y, b.margin_width(), b.margin_height()))
+
+
+def finding_float_stf():
+    """An auto-width float with 10px horizontal paddings and a 5px margin in a 100-px container must
+    shrink to the space its own margins and paddings leave (75px), not take the whole 100px."""
+    box = _box('<div style="width:100px"><div id="f" style="float:left;padding:0 10px;margin-left:5px">'
+               'aaaa bbbb cccc dddd eeee</div></div>', 'f')
+    return box is None or box.margin_width() > 100
+
+
+def finding_float_minmax():
+    """max-width applies to a float with a specified width."""
+    box = _box('<div style="width:100px"><div id="f" style="float:left;height:10px;width:200px;max-width:100px">'
+               '</div></div>', 'f')
+    return box is None or box.width != 100
+
+
 FINDING_REPLAYS = {
+    'tall-line-aligned-in-strut-band': finding_tall_line,
+    'float-shrink-to-fit-ignores-margins-paddings': finding_float_stf,
+    'float-width-ignores-min-max': finding_float_minmax,
     'rtl-inline-float-displaced': finding_rtl_inline_float,
     'inline-float-snapped-to-line-top': finding_inline_float_snapped,
     'abs-auto-margin-ignores-opposite-margin': finding_abs_auto_margin,
@@ -1000,9 +1467,22 @@ def search(run, failures):
             try_abs(meta['doc'])
         if len(found) >= 3:
             return found
+    def try_fixed(doc):
+        run.search_stats['evaluations'] += 1
+        out = guarded(lambda: observe_fixed_doc(doc))
+        what = fixed_doc_violation(doc, out if isinstance(out, str) else out[0])
+        if what:
+            found.append({'what': what, 'input': {'html': fixed_doc_html(doc), 'kind': 'fixed-doc', 'doc': doc},
+                          'signature': 'fixed-doc:' + what[:60]})
+    for failure in failures:
+        detail = failure.get('detail')
+        meta = detail.get('meta') if isinstance(detail, dict) else None
+        if isinstance(meta, dict) and meta.get('kind') in ('fixed-doc', 'fixed-late'):
+            try_fixed(meta['doc'])
     while time.time() - start < budget and len(found) < 3:
         try_float(gen_float_doc(rng, adversarial=rng.random() < 0.2))
         try_abs(gen_abs_doc(rng))
+        try_fixed(gen_fixed_doc(rng))
     return found
 
 
@@ -1010,6 +1490,11 @@ def replay_html(inp):
     doc = unjson(inp.get('doc'))
     if inp.get('kind') == 'float-doc':
         return float_doc_violation(doc, guarded(lambda: observe_float_doc(doc)))
+    if inp.get('kind') in ('fixed-doc', 'fixed-late'):
+        out = guarded(lambda: observe_fixed_doc(doc))
+        return fixed_doc_violation(doc, out if isinstance(out, str) else out[0])
+    if inp.get('kind') == 'wide-doc':
+        return wide_doc_violation(doc)
     if inp.get('kind') == 'abs-doc':
         for line, out, tags, key in abs_doc_cases(doc):
             what = abs_doc_violation(line, out) if line else f'positioned box {key}: {out}'
